@@ -5,6 +5,7 @@ package checks
 
 import (
 	"bytes"
+	"encoding/json"
 	"fmt"
 	"os"
 	"reflect"
@@ -35,6 +36,10 @@ type c17Pool struct {
 	extJSON [][]byte
 	bad     [][]byte     // inputs every decoder rejects (after having started)
 	synth   reflect.Type // a struct type no codec has seen before this program
+	// profile-1 tokens that carry the no-measurements flag (decoded INTO
+	// private objects that were built through the setters before)
+	nomeasCBOR [][]byte
+	nomeasJSON [][]byte
 }
 
 type c17Spec struct {
@@ -122,6 +127,47 @@ func buildPool(sp c17Spec) (*c17Pool, error) {
 	if len(p.claims) == 0 || len(p.evs) == 0 || len(p.jsonBuf) == 0 {
 		return nil, fmt.Errorf("pool too small")
 	}
+	// shared decoded Evidence of unusual-but-decodable envelopes: no
+	// algorithm in the protected header (empty bucket / empty map), the
+	// algorithm only in the unprotected header, a key id and other
+	// parameters in the unprotected header, extra protected parameters
+	for i, m := range sp.Models {
+		if !m.Valid() || i >= 4 {
+			continue
+		}
+		kp := keyFor(sp.Algs[i%len(sp.Algs)], i%2)
+		pay := m.WireBytes()
+		type envl struct {
+			prot   []byte
+			unprot *icbor.Node
+		}
+		for _, e := range []envl{
+			{[]byte{}, icbor.Map()},
+			{[]byte{0xa0}, icbor.Map()},
+			{[]byte{}, icbor.Map(icbor.P(icbor.U(1), icbor.I(kp.Alg)))},
+			{icose.ProtectedAlg(kp.Alg), icbor.Map(icbor.P(icbor.U(4), icbor.Bstr(make([]byte, 32))), icbor.P(icbor.U(99), icbor.Tstr("x")))},
+			{icbor.Encode(icbor.Map(icbor.P(icbor.U(1), icbor.I(kp.Alg)), icbor.P(icbor.U(3), icbor.U(60)))), icbor.Map()},
+		} {
+			sig, err := icose.Sign(kp.Alg, kp.Priv, e.prot, pay)
+			if err != nil {
+				return nil, err
+			}
+			tok := icbor.Encode(icose.Envelope(e.prot, e.unprot, pay, sig))
+			if ev, err := psatoken.DecodeEvidenceFromCOSE(tok); err == nil {
+				p.evs = append(p.evs, ev)
+				p.evKeys = append(p.evKeys, kp)
+			}
+		}
+	}
+	for _, flag := range []uint64{1, 1, 5} {
+		for v := 0; v < 3; v++ {
+			nm := baseValid(P1, v)
+			nm.Comps, nm.NoMeas = nil, u64p(flag)
+			p.nomeasCBOR = append(p.nomeasCBOR, nm.WireBytes())
+			o := modelJN(nm)
+			p.nomeasJSON = append(p.nomeasJSON, []byte(o.String()))
+		}
+	}
 	// extension-profile tokens and inputs that fail inside the helpers
 	for i, m := range sp.Models {
 		if !m.Valid() || m.Prof != P2 {
@@ -160,7 +206,7 @@ type c17Op struct {
 	A, B int
 }
 
-var c17Kinds = []string{"ext-dec-cbor", "ext-dec-json", "ext-bad", "ext-bad", "synth", "synth", "new", "dec-cbor", "dec-json", "dec-cose", "validate", "getter", "getters", "enc-cbor", "enc-json", "venc-cbor", "venc-json",
+var c17Kinds = []string{"reuse", "reuse", "ext-dec-cbor", "ext-dec-json", "ext-bad", "ext-bad", "synth", "synth", "new", "dec-cbor", "dec-json", "dec-cose", "validate", "getter", "getters", "enc-cbor", "enc-json", "venc-cbor", "venc-json",
 	"ev-json", "ev-verify", "ev-ids", "sign", "vsign", "setters", "serialize", "populate"}
 
 func idx(n, k int) int { return ((k % n) + n) % n }
@@ -282,6 +328,36 @@ func runOp(p *c17Pool, o c17Op) string {
 		want, _ := psatoken.EncodeClaimsToCBOR(c)
 		return fmt.Sprintf("payload-equal=%v verifies=%v self-verifies=%v", bytes.Equal(parts.Payload, want),
 			icose.Verify(k.Alg, k.Pub, parts.Protected, parts.Payload, parts.Signature), ev.Verify(k.Pub) == nil)
+	case "reuse":
+		// a private object built through the setters (profile 1 with the
+		// no-measurements flag asserted through SetSoftwareComponents(nil),
+		// or either profile with components), then RE-USED as the
+		// destination of a decode, then encoded
+		prof := P1
+		if o.A%4 == 3 {
+			prof = P2
+		}
+		m := baseValid(prof, idx(3, o.B))
+		m.Profile = sp1(prof.Name())
+		if prof == P1 && o.A%4 != 2 {
+			m.Comps, m.NoMeas = nil, u64p(1)
+		}
+		c, err := m.BuildSetters()
+		if err != nil {
+			return "err:" + err.Error()
+		}
+		var derr error
+		switch {
+		case prof == P2:
+			derr = hdm.Unmarshal(p.cborBuf[idx(len(p.cborBuf), o.B)], c)
+		case o.B%2 == 0:
+			derr = hdm.Unmarshal(p.nomeasCBOR[idx(len(p.nomeasCBOR), o.A+o.B)], c)
+		default:
+			derr = json.Unmarshal(p.nomeasJSON[idx(len(p.nomeasJSON), o.A+o.B)], c)
+		}
+		b, err := psatoken.EncodeClaimsToCBOR(c)
+		j, _ := psatoken.EncodeClaimsToJSON(c)
+		return fmt.Sprintf("%v/%s/%x/%v/%s", derr != nil, ObserveGetters(c), b, err != nil, j)
 	case "setters":
 		// private object, built and encoded here
 		prof := P1
